@@ -185,3 +185,28 @@ Theorem C03_source_settles : forall lut ws ds zreg s nr nf, wf_args ws ds zreg -
   wf_wave z /\ length z = length zreg /\
   init_val z = lut_at lut (map init_val ws) /\ final_val z = lut_at lut (map final_val ws).
 Proof. exact KV.Proofs.WaveEvalSrcCorollaries.src_settles. Qed.
+
+(** DRIVER CODE from the source text (Gen/WaveDriversSrc.v, translate/gen_wave_drivers.py; see Properties/C06.v): the step of the
+    compared model's c_prop is what one iteration of level_eval_cpu does to the lane's columns, and [w_c_prop] is the fold of
+    these steps over the op list; the model's s_to_c is what the threads of wave_assign_gpu do to a lane *)
+From KV Require Import Model.WaveDrvPrelude Gen.WaveDriversSrc.
+From KV Require Proofs.WaveDriversProofs.
+Theorem C03_driver_eval_is_model : forall so ops D seed sim i o a L,
+  nth i ops [] = KV.Proofs.WaveDriversProofs.op_row o a -> KV.Proofs.WaveDriversProofs.out_cap_ok so (l_c L) o ->
+  LevelEvalCpuSrc.inst_src ops (so_locs so) (KV.Proofs.WaveDriversProofs.caps_z so) D seed sim (Z.of_nat i) L
+  = match KV.Proofs.WaveDriversProofs.eval_step so (KV.Proofs.WaveDriversProofs.lane_sel D seed L (Z.of_nat (s_out o))) o a (l_c L, l_abuf L) with
+    | None => None
+    | Some (m2, ab2) => Some (set_abuf (set_c L m2) ab2)
+    end.
+Proof. exact KV.Proofs.WaveDriversProofs.level_eval_cpu_inst_is_model. Qed.
+Theorem C03_driver_c_prop_is_fold : forall so delays actrl m ab, w_c_prop so delays actrl m ab =
+  fold_left (fun (st : option (wmem * list Z)) (io : nat * sop) =>
+               match st with None => None
+               | Some st' => KV.Proofs.WaveDriversProofs.eval_step so delays (snd io) (nth (fst io) actrl ((-1)%Z, 0%Z, 0%Z)) st' end)
+            (combine (seq 0 (length (so_ops so))) (so_ops so)) (Some (m, ab)).
+Proof. exact KV.Proofs.WaveDriversProofs.w_c_prop_fold. Qed.
+Theorem C03_driver_assign_is_model : forall so nsims x L, x < nsims ->
+  fold_left (fun L' y => WaveAssignGpuSrc.inst_src (so_locs so) (Z.of_nat (so_nlines so + 3)) (Z.of_nat (so_slen so)) (Z.of_nat nsims)
+                            (Z.of_nat x) (Z.of_nat y) L') (seq 0 (so_slen so)) L
+  = set_c L (w_s_to_c so (map (KV.Proofs.WaveDriversProofs.s_dec_gpu L) (seq 0 (so_slen so))) (l_c L)).
+Proof. exact KV.Proofs.WaveDriversProofs.assign_gpu_lane_is_model. Qed.
